@@ -70,10 +70,17 @@ int main(int argc, char** argv) {
     int s = 0; bool handled = true;
     if (sym == "masa_init") s = in_child([&] {
       const char* sv[2] = {"fh", "heateq_2d_steady_const"}; capture([&] { f(0, 0, sv, 0, 0); }); std::string n; masa_get_name<double>(&n); std::string l = capture([] { masa_list_mms<double>(); });
-      st++; calls++; valid++; if (n != "heateq_2d_steady_const" || l.find("fh : heateq_2d_steady_const") == std::string::npos) viol("masa_init through its Fortran prototype did not register/select the solution", sym); });
+      st++; calls++; valid++; if (n != "heateq_2d_steady_const" || l.find("fh : heateq_2d_steady_const") == std::string::npos) viol("masa_init through its Fortran prototype did not register/select the solution", sym);
+      // a handle is used verbatim: a blank-padded one (a fixed-length character variable) is another handle than its trimmed twin
+      const char* sp[2] = {"pad   ", "euler_1d"}; capture([&] { f(0, 0, sp, 0, 0); }); l = capture([] { masa_list_mms<double>(); }); bool sel_ok = true; std::string nm2;
+      capture([&] { masa_init<double>("other", "laplace_2d"); });
+      if (l.find("pad    : euler_1d") == std::string::npos) sel_ok = false;
+      st++; calls++; valid++; if (!sel_ok) viol("masa_init through its Fortran prototype did not register the blank-padded handle 'pad   ' verbatim (masa_list_mms: " + l.substr(0, 120) + ")", sym); });
     else if (sym == "masa_select_mms") s = in_child([&] {
-      capture([] { masa_init<double>("a", "euler_1d"); masa_init<double>("b", "laplace_2d"); }); const char* sv[1] = {"a"}; capture([&] { f(0, 0, sv, 0, 0); }); std::string n; masa_get_name<double>(&n);
-      st++; calls++; valid++; if (n != "euler_1d") viol("masa_select_mms through its Fortran prototype did not select handle a", sym); });
+      capture([] { masa_init<double>("a", "euler_1d"); masa_init<double>("a  ", "heateq_2d_steady_const"); masa_init<double>("b", "laplace_2d"); }); const char* sv[1] = {"a"}; capture([&] { f(0, 0, sv, 0, 0); }); std::string n; masa_get_name<double>(&n);
+      st++; calls++; valid++; if (n != "euler_1d") viol("masa_select_mms through its Fortran prototype did not select handle a", sym);
+      const char* sw[1] = {"a  "}; capture([&] { f(0, 0, sw, 0, 0); }); masa_get_name<double>(&n);
+      st++; calls++; valid++; if (n != "heateq_2d_steady_const") viol("masa_select_mms through its Fortran prototype did not select the blank-padded handle 'a  ' (selected " + n + ")", sym); });
     else if (sym == "masa_list_mms" || sym == "masa_display_param" || sym == "masa_display_array") s = in_child([&] {
       capture([] { masa_init<double>("a", "euler_1d"); masa_init<double>("r", "radiation_integrated_intensity"); });
       std::string a = capture([&] { f(0, 0, 0, 0, 0); }), b = capture([&] { if (sym == "masa_list_mms") masa_list_mms<double>(); else if (sym == "masa_display_param") masa_display_param<double>(); else masa_display_vec<double>(); });
